@@ -187,9 +187,14 @@ ExecAttribute(ss, S, ins, nss0, parH) ==
        IF ins.ns = "" THEN AddResultAttr(S, "", l, ins.v, FALSE)                      \* prefix stripped, no namespace
        ELSE
          LET found == PrefixForNs(S, ins.ns)
-         IN IF found # Null /\ found # "" /\ (p = "" \/ found = p)
+             (* equals(prefix, attrName, indexOfNSSep) compares only as many characters as the attribute's  *)
+             (* prefix has: "xml" also matches a result prefix "xmlns" (the only such pair that can arise:   *)
+             (* xsl:element may declare xmlns, KD_xmlnsPrefixOnElement)                                     *)
+             samePrefix == found = p \/ (p = "xml" /\ found = "xmlns")
+         IN IF found # Null /\ found # "" /\ (p = "" \/ samePrefix)
             THEN (* re-use the prefix found for the namespace *)
-                 AddResultAttr(IF NsForPrefix(S, found) # ins.ns THEN Tag(S, "shadowedPrefixReused") ELSE S, found, l, ins.v, FALSE)
+                 AddResultAttr(IF found = "xmlns" THEN Tag(S, "xmlnsPrefixOnElement")
+                               ELSE IF NsForPrefix(S, found) # ins.ns THEN Tag(S, "shadowedPrefixReused") ELSE S, found, l, ins.v, FALSE)
             ELSE LET isXmlns == p = "xmlns"
                      keep == /\ p # "" /\ ~isXmlns
                              /\ ~(LET t == NsForPrefix(S, p) IN t # Null /\ t # ins.ns /\ IsPendingResultPrefix(S, p))
@@ -403,7 +408,8 @@ KDFaults(t) ==
     [] t = "staleExcludedPrefix"          -> {"element-name", "default-namespace-leak", "attribute-name", "attribute-value", "duplicate-expanded-attribute-name",
                                               "excluded-namespace-declared", "alias-stylesheet-namespace-declared"} \cup NotWF
     [] t = "xmlPrefixWithOtherNamespace"  -> {"attribute-name", "attribute-value"}
-    [] t = "xmlnsPrefixOnElement"         -> {"xmlns-prefix-declared", "xmlns-used-as-prefix", "xmlns-namespace-declared", "element-name"} \cup NotWF
+    [] t = "xmlnsPrefixOnElement"         -> {"xmlns-prefix-declared", "xmlns-used-as-prefix", "xmlns-namespace-declared", "element-name",
+                                              "attribute-name", "attribute-value", "duplicate-attribute-qname"} \cup NotWF
     [] t = "emptyNamespaceAttributeIgnored" -> {"element-name"}
     [] t = "literalAttributePrefixRebound" -> {"attribute-name", "attribute-value", "duplicate-expanded-attribute-name"} \cup NotWF
     [] t = "strippedPrefixUndeclared"     -> {"prefix-undeclared", "default-namespace-leak", "element-name"} \cup NotWF
